@@ -1,4 +1,5 @@
 import TextxVerif.Proofs.BaseTypes
+import TextxVerif.Proofs.BaseTypesLine
 /-!
 # C04 — built-in base types convert text to values faithfully
 
@@ -157,6 +158,135 @@ theorem C04_bool (cc : CharClasses) (hcc : Sane cc) (w : List Char) (b : Bool) (
   rw [hv] at this
   exact this
 
+/-! ### whole lines of numbers and bools (`Model: v*=TYPE;`), and literals given as plain text
+
+`litLine text items tail` is the text of the literals `items` (each preceded by its own whitespace)
+followed by `tail`; `Separated items` says that every literal but the first has at least one
+whitespace character before it (numbers and bools cannot touch: the regexes' own look-aheads).
+Whitespace is Arpeggio's default set (space, tab, newline, carriage return). -/
+
+/-- **INT alone needs less than a number boundary**: an int literal not followed by another ASCII digit is
+read by INT, whatever else follows (`12abc`, `12.5` → `12`), for every classification `cc`. -/
+theorem C04_int_only (cc : CharClasses) (i : IntLit) (hi : i.WF) (p : Option Char) (rest : List Char)
+    (hrest : Stops asciiDigit rest) : Reads cc .INT p i.text rest (.int i.text) := by
+  obtain ⟨q, h⟩ := int_hd (cc := cc) i hi rest hrest p
+  rw [← INT_shape] at h
+  exact ⟨q, firstMatch_hd (conv := Gen.Procs.INT) (alts := []) h (by simp [IntLit.text])⟩
+
+/-- **A whole line of numbers.** `Model: v*=NUMBER;` on any number of literals — int literals and float
+literals written with a '.' or an exponent, mixed, separated by whitespace, with leading and trailing
+whitespace — yields exactly their values in order: the int literals as ints (`int(text)`), the others as
+floats (`float(text)`). -/
+theorem C04_number_line (cc : CharClasses) (hcc : Sane cc) (items : List (Item NumLit))
+    (hitems : ∀ i ∈ items, (∀ c ∈ i.ws, isWs c = true) ∧ i.lit.WF cc) (hsep : Separated items)
+    (tail : List Char) (htail : ∀ c ∈ tail, isWs c = true) :
+    tokens cc .NUMBER (litLine NumLit.text items tail) = .ok (items.map (fun i => i.lit.val)) := by
+  refine tokens_litLine (cc := cc) .NUMBER NumLit.text NumLit.val (NumBoundary cc) NumBoundary.nil
+    (numBoundary_ws hcc) (NumLit.WF cc) ?_ (numLit_head hcc) items hitems hsep tail htail
+  intro a ha p rest hb
+  cases a with
+  | int i => exact (C04_int_lit cc hcc i ha p rest hb).2
+  | float f => exact ((C04_float cc hcc f ha.1 p rest hb).2 ha.2).2
+
+/-- **A whole line of ints.** `Model: v*=INT;` and `Model: v*=NUMBER;` on whitespace-separated int
+literals yield the literals handed to `int()`, in order. -/
+theorem C04_int_line (cc : CharClasses) (hcc : Sane cc) (items : List (Item IntLit))
+    (hitems : ∀ i ∈ items, (∀ c ∈ i.ws, isWs c = true) ∧ i.lit.WF) (hsep : Separated items)
+    (tail : List Char) (htail : ∀ c ∈ tail, isWs c = true) :
+    tokens cc .INT (litLine IntLit.text items tail) = .ok (items.map (fun i => Py.Val.int i.lit.text)) ∧
+    tokens cc .NUMBER (litLine IntLit.text items tail) = .ok (items.map (fun i => Py.Val.int i.lit.text)) := by
+  constructor
+  · refine tokens_litLine (cc := cc) .INT IntLit.text (fun i => Py.Val.int i.text) (NumBoundary cc) NumBoundary.nil
+      (numBoundary_ws hcc) IntLit.WF ?_ intLit_head items hitems hsep tail htail
+    intro a ha p rest hb
+    exact (C04_int_lit cc hcc a ha p rest hb).1
+  · refine tokens_litLine (cc := cc) .NUMBER IntLit.text (fun i => Py.Val.int i.text) (NumBoundary cc) NumBoundary.nil
+      (numBoundary_ws hcc) IntLit.WF ?_ intLit_head items hitems hsep tail htail
+    intro a ha p rest hb
+    exact (C04_int_lit cc hcc a ha p rest hb).2
+
+/-- **A whole line of floats.** `Model: v*=FLOAT;` on whitespace-separated float literals (digits-only
+ones included) yields the literals handed to `float()`, in order; when all of them are written with a '.'
+or an exponent, `v*=STRICTFLOAT` and `v*=NUMBER` do the same. -/
+theorem C04_float_line (cc : CharClasses) (hcc : Sane cc) (items : List (Item FloatLit))
+    (hitems : ∀ i ∈ items, (∀ c ∈ i.ws, isWs c = true) ∧ i.lit.WF cc) (hsep : Separated items)
+    (tail : List Char) (htail : ∀ c ∈ tail, isWs c = true) :
+    tokens cc .FLOAT (litLine FloatLit.text items tail) = .ok (items.map (fun i => Py.Val.float i.lit.text)) ∧
+    ((∀ i ∈ items, i.lit.Strict) →
+      tokens cc .STRICTFLOAT (litLine FloatLit.text items tail) = .ok (items.map (fun i => Py.Val.float i.lit.text)) ∧
+      tokens cc .NUMBER (litLine FloatLit.text items tail) = .ok (items.map (fun i => Py.Val.float i.lit.text))) := by
+  constructor
+  · refine tokens_litLine (cc := cc) .FLOAT FloatLit.text (fun f => Py.Val.float f.text) (NumBoundary cc) NumBoundary.nil
+      (numBoundary_ws hcc) (FloatLit.WF cc) ?_ (floatLit_head hcc) items hitems hsep tail htail
+    intro a ha p rest hb
+    exact (C04_float cc hcc a ha p rest hb).1
+  · intro hstrict
+    have hitems' : ∀ i ∈ items, (∀ c ∈ i.ws, isWs c = true) ∧ (i.lit.WF cc ∧ i.lit.Strict) :=
+      fun i hi => ⟨(hitems i hi).1, (hitems i hi).2, hstrict i hi⟩
+    constructor
+    · refine tokens_litLine (cc := cc) .STRICTFLOAT FloatLit.text (fun f => Py.Val.float f.text) (NumBoundary cc)
+        NumBoundary.nil (numBoundary_ws hcc) (fun f => f.WF cc ∧ f.Strict) ?_ (fun f hf => floatLit_head hcc f hf.1)
+        items hitems' hsep tail htail
+      intro a ha p rest hb
+      exact ((C04_float cc hcc a ha.1 p rest hb).2 ha.2).1
+    · refine tokens_litLine (cc := cc) .NUMBER FloatLit.text (fun f => Py.Val.float f.text) (NumBoundary cc)
+        NumBoundary.nil (numBoundary_ws hcc) (fun f => f.WF cc ∧ f.Strict) ?_ (fun f hf => floatLit_head hcc f hf.1)
+        items hitems' hsep tail htail
+      intro a ha p rest hb
+      exact ((C04_float cc hcc a ha.1 p rest hb).2 ha.2).2
+
+/-- **A whole line of bools.** `Model: v*=BOOL;` on whitespace-separated BOOL spellings yields the bools
+they stand for, in order. -/
+theorem C04_bool_line (cc : CharClasses) (hcc : Sane cc) (items : List (Item (List Char × Bool)))
+    (hitems : ∀ i ∈ items, (∀ c ∈ i.ws, isWs c = true) ∧ i.lit ∈ boolSpellings) (hsep : Separated items)
+    (tail : List Char) (htail : ∀ c ∈ tail, isWs c = true) :
+    tokens cc .BOOL (litLine Prod.fst items tail) = .ok (items.map (fun i => Py.Val.bool i.lit.2)) := by
+  refine tokens_litLine (cc := cc) .BOOL Prod.fst (fun a => Py.Val.bool a.2)
+    (fun rest => ∀ c, rest.head? = some c → cc.isWord c = false) (by simp)
+    (fun c t hc d hd => by simp at hd; subst hd; exact (ws_facts hcc hc).1)
+    (fun a => a ∈ boolSpellings) ?_ (fun a ha => bool_head a.1 a.2 ha) items hitems hsep tail htail
+  intro a ha p rest hb
+  exact C04_bool cc hcc a.1 a.2 ha p rest hb
+
+/-- **Literals given as plain text.** `numLit?` is a hand-written scanner (sign, digits, '.', digits,
+exponent; ASCII digits) that does not use the regexes.  Every text it accepts is read completely by NUMBER
+at a number boundary: as an int when it is `[-+]?[0-9]+` (`litKind = 1`), else as a float (`litKind = 2`),
+and the very text is what reaches `int()` / `float()`.  The harness asks the driver for `litKind` of every
+literal it writes (`str(int)`, `repr`, `%e`, `%E`, `%g`, `%f`, `.5`, `5.`, `12e5` …), so that what Python
+prints for a number is checked to be of the form the theorems quantify over. -/
+theorem C04_number_text (cc : CharClasses) (hcc : Sane cc) (t : List Char) (ht : litKind t ≠ 0) (p : Option Char)
+    (rest : List Char) (hb : NumBoundary cc rest) : Reads cc .NUMBER p t rest (numVal t) := by
+  obtain ⟨a, ha⟩ := litKind_ne_zero ht
+  obtain ⟨h1, h2, h3⟩ := numLit?_sound cc hcc t a ha
+  subst h1
+  rw [← h3]
+  cases a with
+  | int i => exact (C04_int_lit cc hcc i h2 p rest hb).2
+  | float f => exact ((C04_float cc hcc f h2.1 p rest hb).2 h2.2).2
+
+/-- the same for a whole line: whitespace-separated texts accepted by the scanner, through `v*=NUMBER` -/
+theorem C04_number_line_text (cc : CharClasses) (hcc : Sane cc) (items : List (Item (List Char)))
+    (hitems : ∀ i ∈ items, (∀ c ∈ i.ws, isWs c = true) ∧ litKind i.lit ≠ 0) (hsep : Separated items)
+    (tail : List Char) (htail : ∀ c ∈ tail, isWs c = true) :
+    tokens cc .NUMBER (litLine id items tail) = .ok (items.map (fun i => numVal i.lit)) := by
+  refine tokens_litLine (cc := cc) .NUMBER id numVal (NumBoundary cc) NumBoundary.nil
+    (numBoundary_ws hcc) (fun t => litKind t ≠ 0) ?_ ?_ items hitems hsep tail htail
+  · intro t ht p rest hb
+    exact C04_number_text cc hcc t ht p rest hb
+  · intro t ht
+    obtain ⟨a, ha⟩ := litKind_ne_zero ht
+    obtain ⟨h1, h2, _⟩ := numLit?_sound cc hcc t a ha
+    obtain ⟨c, t', h, hc⟩ := numLit_head hcc a h2
+    exact ⟨c, t', by rw [← h1]; exact h, hc⟩
+
+/-- FLOAT on plain text: every text the float scanner accepts (digits-only included) is read completely
+by FLOAT and reaches `float()` unchanged. -/
+theorem C04_float_text (cc : CharClasses) (hcc : Sane cc) (t : List Char) (f : FloatLit) (ht : floatLit? t = some f)
+    (p : Option Char) (rest : List Char) (hb : NumBoundary cc rest) : Reads cc .FLOAT p t rest (.float t) := by
+  obtain ⟨h1, h2⟩ := floatLit?_sound cc hcc t f ht
+  rw [← h1]
+  exact (C04_float cc hcc f h2 p rest hb).1
+
 /-! ### non-vacuity: the hypotheses are met by concrete, non-trivial instances -/
 example : Sane asciiCC := asciiCC_sane
 example : noTrailingBackslash "a\\\"b 'c' \\\\x".toList := by decide
@@ -175,5 +305,28 @@ example : tokenAt asciiCC .NUMBER (none, "-12.5e+10 7".toList) =
     some (.float "-12.5e+10".toList, (some '0', " 7".toList)) := by decide +kernel
 example : tokenAt asciiCC .NUMBER (none, "-12 7".toList) = some (.int "-12".toList, (some '2', " 7".toList)) := by
   decide +kernel
+
+/-! non-vacuity of the line theorems and of the scanner hypotheses -/
+example : Separated ([⟨[], NumLit.int ⟨['-'], '1', ['2']⟩⟩, ⟨['\n', ' '], .float ⟨[], .dotFrac '5' [], none⟩⟩] : List (Item NumLit)) := by
+  intro i hi; simp at hi; subst hi; simp
+example : (NumLit.float ⟨[], .int '1' ['2'], some ⟨'E', ['-'], '5', []⟩⟩).WF asciiCC := by
+  refine ⟨⟨Or.inl rfl, by decide, ?_⟩, Or.inr rfl⟩
+  intro x hx; cases hx
+  exact ⟨Or.inr rfl, Or.inr (Or.inr rfl), by decide, by decide⟩
+example : (NumLit.int ⟨['+'], '0', ['0', '7']⟩).WF asciiCC := ⟨Or.inr (Or.inl rfl), by decide, by decide⟩
+example : litLine NumLit.text [⟨[' '], .int ⟨['-'], '1', ['2']⟩⟩, ⟨['\n', ' '], .float ⟨[], .dotFrac '5' [], none⟩⟩,
+    ⟨['\t'], .float ⟨[], .int '1' ['2'], some ⟨'E', ['-'], '5', []⟩⟩⟩] ['\n'] = " -12\n .5\t12E-5\n".toList := by decide
+example : (tokens asciiCC .NUMBER " -12\n .5\t12E-5\n".toList).toOption =
+    some [.int "-12".toList, .float ".5".toList, .float "12E-5".toList] := by decide +kernel
+example : (tokens asciiCC .BOOL "true 0\nFalse".toList).toOption = some [.bool true, .bool false, .bool false] := by
+  decide +kernel
+/-- the separation is needed: touching numbers are not two numbers -/
+example : (tokens asciiCC .NUMBER "1.5.5".toList).toOption = none := by decide +kernel
+example : Stops asciiDigit "abc".toList := by intro c hc; simp at hc; subst hc; decide
+example : tokenAt asciiCC .INT (none, "12abc".toList) = some (.int "12".toList, (some '2', "abc".toList)) := by
+  decide +kernel
+example : litKind "-12".toList = 1 ∧ litKind "1e+22".toList = 2 ∧ litKind "-1.5E-7".toList = 2 ∧ litKind "5.".toList = 2 ∧
+    litKind ".5".toList = 2 ∧ litKind "1.2.3".toList = 0 ∧ litKind "1e".toList = 0 ∧ litKind "inf".toList = 0 := by decide
+example : (floatLit? "12".toList).map FloatLit.strictB = some false := by decide
 
 end BaseTypes
